@@ -44,18 +44,19 @@ def resetCtx (x : Ctx) : Ctx := { x with state := .paused, bstate := .completed,
 def resetCtxs (s : State) : State := { s with ctxs := s.ctxs.map (fun e => (e.1, resetCtx e.2)) }
 
 def prep (s : State) : HRes :=
-  let r1 := foldH refundFee s s.activeB
+  let r1 := foldH refundFee s (FSet.elems s.activeB)
   match r1.panic with
   | some m => ⟨s, [], some m⟩
   | none =>
-    let r2 := foldH refundEarned r1.s r1.s.earned
+    let r2 := foldH refundEarned r1.s (entries r1.s.earned)
     match r2.panic with
     | some m => ⟨s, [], some m⟩
     | none => ⟨resetCtxs r2.s, r1.effs ++ r2.effs, none⟩
 
 /-! ### export -/
 def exportG (s : State) : GenesisState :=
-  { params := s.params, defs := s.defs, bindings := s.bindings, withdraw := s.withdraw, ctxs := s.ctxs }
+  { params := s.params, defs := entries s.defs, bindings := entries s.bindings, withdraw := entries s.withdraw,
+    ctxs := entries s.ctxs }
 
 /-! ### validation (`ValidateGenesis`), on the fields the model carries -/
 def paramsValid (p : Params) : Bool :=
